@@ -220,6 +220,32 @@ pub fn continue_100(ctx: &mut Ctx) -> Vec<u8> {
     v
 }
 
+/// An interim (informational) response head other than 100: 102 Processing, 103 Early Hints and
+/// unassigned 1xx codes. It carries no Connection field; it may carry fields that would matter on
+/// a final response (a Content-Length, a Location) and must not matter here.
+pub fn interim_1xx(ctx: &mut Ctx, location: Option<&str>) -> Vec<u8> {
+    let status = *ctx.pick(&[103u16, 102, 103, 110, 150, 199]);
+    let mut fields: Vec<Field> = Vec::new();
+    if ctx.flip() {
+        fields.push(Field::plain("Link", "</style.css>; rel=preload; as=style"));
+    }
+    for _ in 0..ctx.range(0, 2) {
+        fields.push(gen_field(ctx));
+    }
+    if ctx.chance(1, 4) {
+        fields.push(Field::plain("Content-Length", *ctx.pick(&["7", "0", "31"])));
+    }
+    if let Some(l) = location {
+        fields.push(Field::plain("Location", l));
+    }
+    let reason: &[u8] = match status {
+        102 => b"Processing",
+        103 => b"Early Hints",
+        _ => b"",
+    };
+    RespHead { http11: true, status, reason: reason.to_vec(), fields }.render().bytes
+}
+
 /// Compare an observed response with the ground-truth head.
 pub fn check_resp_obs(o: &RespObs, h: &RespHead) -> Result<(), String> {
     if o.status != h.status {
@@ -635,19 +661,25 @@ pub fn c06(ctx: &mut Ctx) -> R {
     if plan.truth != RF::Close && !plan.body_incomplete {
         tail.extend_from_slice(b"HTTP/1.1 200 OK\r\nContent-Length: 0\r\n\r\n");
     }
-    let mut stream = plan.bytes();
+    // history: an interim 1xx head (102 / 103 / ...) may precede the final one; an interim-aware
+    // caller polls past it, and the framing is that of the final head
+    let interim = if status >= 200 && ctx.chance(1, 6) { interim_1xx(ctx, None) } else { Vec::new() };
+    let hs = interim.len();
+    let mut stream = interim;
+    stream.extend_from_slice(&plan.bytes());
     let msg_len = stream.len();
     stream.extend_from_slice(&tail);
     let mut arrivals = if one_shot {
         vec![stream.len()]
     } else {
-        let mut marks = plan.line_ends.clone();
-        marks.push(plan.head_bytes.len());
+        let mut marks: Vec<usize> = plan.line_ends.iter().map(|e| hs + e).collect();
+        marks.push(hs);
+        marks.push(hs + plan.head_bytes.len());
         marks.push(msg_len);
         gen_arrival(ctx, stream.len(), &marks, 200).0
     };
     if let Some((a, b)) = plan.protected() {
-        remove_protected(&mut arrivals, &[(a, b)]);
+        remove_protected(&mut arrivals, &[(hs + a, hs + b)]);
     }
     if arrivals.last() != Some(&stream.len()) {
         arrivals.push(stream.len());
@@ -659,7 +691,11 @@ pub fn c06(ctx: &mut Ctx) -> R {
         Err(e) => fail!("FOREIGN", "", "cannot build flow: {}", e),
     };
     set_observed(true);
-    let policy = if one_shot { Policy::canonical(AwaitPolicy::GiveUpAtOnce) } else { Policy::draw(ctx, AwaitPolicy::GiveUpAtOnce) };
+    let mut policy = if one_shot { Policy::canonical(AwaitPolicy::GiveUpAtOnce) } else { Policy::draw(ctx, AwaitPolicy::GiveUpAtOnce) };
+    policy.skip_interim = hs > 0;
+    if hs > 0 {
+        ctx.count("f:interim_1xx_before_final_head");
+    }
     let ex = Exchange { prop: "C06", body: &body, policy, server: ServerPlan { msgs: vec![], close_after: plan.truth == RF::Close }, fixed_stream: Some(FixedStream { stream: &stream, consumed: 0, visible: 0, arrivals }) };
     let obs = ex.run(ctx, start)?;
     ctx.sig3(cell as u64, obs.edges.len() as u64, obs.terminal.name().len() as u64);
@@ -683,6 +719,12 @@ pub fn c06(ctx: &mut Ctx) -> R {
             return Ok(());
         }
         _ => {}
+    }
+    if hs > 0 && obs.responses.len() < 2 && !matches!(obs.terminal, Terminal::Redirect(_) | Terminal::Cleanup(_)) {
+        // the flow would not hand out a second head after the interim one (it failed or stayed
+        // silent): the statement does not say that polling past a delivered head must work
+        ctx.count("p:interim_poll_refused");
+        return Ok(());
     }
     if let Terminal::Error(s, e) = &obs.terminal {
         fail!("C06.unexpected_error", s, "{} -> {} {} CL={:?} TE={:?}: failed in {}: {}", method, status, if http11 { "1.1" } else { "1.0" }, spec.cl, spec.te, s, e);
@@ -901,6 +943,14 @@ pub fn c10(ctx: &mut Ctx) -> R {
     if let Some(i) = &interim {
         stream.extend_from_slice(i);
     }
+    // history: an interim 1xx head without a Connection field, polled past by an interim-aware
+    // caller; the verdict is about the final response
+    let early = !handshake && plan.head.status >= 200 && ctx.chance(1, 6);
+    if early {
+        let e = interim_1xx(ctx, None);
+        stream.extend_from_slice(&e);
+        ctx.count("f:interim_1xx_before_final_head");
+    }
     let hs = stream.len();
     stream.extend_from_slice(&plan.bytes());
     let msg_end = stream.len();
@@ -924,9 +974,16 @@ pub fn c10(ctx: &mut Ctx) -> R {
         Err(e) => fail!("FOREIGN", "", "cannot build flow: {}", e),
     };
     set_observed(true);
-    let policy = Policy::draw(ctx, policy_await);
+    let mut policy = Policy::draw(ctx, policy_await);
+    policy.skip_interim = early;
     let ex = Exchange { prop: "C10", body: &body, policy, server: ServerPlan { msgs: vec![], close_after: plan.truth == RF::Close }, fixed_stream: Some(FixedStream { stream: &stream, consumed: 0, visible: 0, arrivals: arrivals.clone() }) };
     let obs = ex.run(ctx, start)?;
+    if early && obs.responses.len() < 2 && !matches!(obs.terminal, Terminal::Redirect(_) | Terminal::Cleanup(_)) {
+        // polling past a delivered interim head was refused: nothing to judge
+        ctx.count("p:interim_poll_refused");
+        ctx.nontrivial = true;
+        return Ok(());
+    }
     match &obs.terminal {
         Terminal::Stuck(s) => fail!("FOREIGN", "", "exchange stuck in {} ({})", s, obs.state_path()),
         Terminal::Error(s, e) => fail!("FOREIGN", "", "exchange failed in {}: {}", s, e),
